@@ -46,7 +46,11 @@ def generate(rng, tier):
     cases = []
     for _ in range(n):
         node = gen_scan(rng) if rng.random() < 0.7 else rng.choice(DERIVED)
-        trace = muxgen.gen_trace(rng, muxgen.INT, max_items=rng.choice([None, 3, 0]))
+        typ = muxgen.FLT if node[0] in ('sum', 'mean', 'min', 'max', 'variance') and rng.random() < 0.5 else muxgen.INT
+        trace = muxgen.gen_trace(rng, typ, max_items=rng.choice([None, 3, 0]))
+        if typ == muxgen.FLT and rng.random() < 0.5:
+            # ints and floats mixed in one key
+            trace = [(['n', e[1], enc(rng.randint(-2, 6))] if e[0] == 'n' and rng.random() < 0.5 else e) for e in trace]
         cases.append({'ast': [node], 'trace': trace, 'plain': rng.random() < 0.3})
     return cases
 
@@ -60,6 +64,13 @@ def run_impl(case):
                 obs['plain'].append(muxlib.run_plain(case['ast'], items))
             except Exception as e:
                 obs['plain'].append({'raised': type(e).__name__})
+        # the same piped plain observable subscribed twice: every subscription starts from a fresh seed
+        obs['resub'] = []
+        for _, items in muxgen.lifetimes_of(case['trace'])[:2]:
+            try:
+                obs['resub'].append(muxlib.run_plain_twice(case['ast'], items))
+            except Exception as e:
+                obs['resub'].append({'raised': type(e).__name__})
     return obs
 
 
@@ -169,6 +180,13 @@ def oracle(case, obs):
         if len(got) != len(want) or not all(close(g, w) for g, w in zip(got, want)):
             return {'sig': 'scan:%s:plain' % node[0], 'what': '%s on plain %s: emitted %s, expected %s' % (
                 json.dumps(node)[:80], xs, got, want)}
+    for (key, items), rs_ in zip(muxgen.lifetimes_of(case['trace'])[:2], obs.get('resub', [])):
+        if isinstance(rs_, dict):
+            return {'sig': 'scan:plain-resubscribe-raised', 'what': 'second subscription raised %s' % rs_['raised']}
+        if rs_[0] != rs_[1]:
+            return {'sig': 'scan:%s:plain-resubscribe' % node[0], 'what': '%s on plain %s: first subscription emits %s, second '
+                    'subscription of the same observable emits %s' % (json.dumps(node)[:80], [dec(x) for x in items],
+                                                                      [dec(x) for x in rs_[0]], [dec(x) for x in rs_[1]])}
     return None
 
 
